@@ -473,6 +473,11 @@ func verifrtRange%[1]d(m map[%[2]s]%[3]s) *verifrtIter%[1]d {
 
 func (it *verifrtIter%[1]d) next() bool {
 	for {
+		if len(it.m) < it.Len {
+			// entries were deleted (the clear idiom deletes one per iteration): nothing new to look for.
+			// An insertion hidden behind the deletions is not produced, which the language allows.
+			it.Len = len(it.m)
+		}
 		if it.Len != len(it.m) {
 			var fresh []interface{}
 			for k := range it.m {
